@@ -1,14 +1,20 @@
 import AtreeProofs.Codec.RoundTrip
+import AtreeProofs.Codec.HeadG
 /-
   C07 — Slab encoding is canonical, self-describing and round-trips exactly.
-  PROPERTY THEOREMS about the byte-level model (`AtreeModel/Codec`) for standalone array data slabs
-  (root / non-root, with or without sibling link), array index slabs and large-value slabs.
+  PROPERTY THEOREMS about the byte-level model (`AtreeModel/Codec`).
 
-  NOT covered here (outside the byte-level model): inlined array/map children, the shared
-  inlined-extra-data section (hence the compact-map exception of the property), and every map slab.
-  The hypotheses `DataOK` / `MetaOK` / `validElem` collect what the encoder relies on (field widths,
-  `count = len(elements)`, `size = prefix + Σ sizes`, children share the parent's address, …); they
-  follow from the tree invariant of C05 (`C06.no_uint16_truncation` for the two `uint16` casts).
+  Round trip / re-encoding: standalone array data slabs (root / non-root, with or without sibling
+  link), array index slabs and large-value slabs (`SlabOK`; it is `False` for the kinds of the
+  second part of the model, which have their own theorems).  The hypotheses `DataOK` / `MetaOK` /
+  `validElem` collect what the encoder relies on (field widths, `count = len(elements)`,
+  `size = prefix + Σ sizes`, children share the parent's address, …); they follow from the tree
+  invariant of C05 (`C06.no_uint16_truncation` for the two `uint16` casts).
+
+  Header flags (`flags_truthful`): ALL slab kinds of the model, without hypothesis — array and map
+  data / index slabs, collision-group slabs, large-value slabs, with inlined children and wrappers;
+  "has pointers" means a slab reference anywhere inside an element (inside a wrapper, inside an
+  inlined array or map at any depth, or an external collision group).
 -/
 namespace Atree.C07
 open Atree Atree.Codec Atree.Gen
@@ -51,6 +57,10 @@ def isRoot : Slab → Bool
   | .data _ s => s.root
   | .index _ m => m.root
   | .storable _ _ => false
+  | .adata a => a.ty.isSome
+  | .mdata m => m.extra.isSome
+  | .mindex m => m.extra.isSome
+  | .storableG _ _ => false
 
 /-- does some *element* of the slab refer to another slab (`SlabIDStorable`); an index slab has no
     elements — its children are named in child headers, and `ArrayMetaDataSlab.Encode` never sets
@@ -59,9 +69,19 @@ def hasRefElem : Slab → Bool
   | .data _ s => s.elems.any elemIsRef
   | .index _ _ => false
   | .storable _ e => elemIsRef e
+  -- the kinds of the second part: a reference anywhere inside an element — directly, inside a wrapper,
+  -- inside an inlined array / map at any depth, or an external collision group (`Stor.hasPtr`)
+  | .adata a => anyPtrSts a.elems
+  | .mdata m => m.els.hasPtr
+  | .mindex _ => false
+  | .storableG _ s => s.hasPtr
 
+/-- is the slab exempt from the size limit: a large-value slab, or — among the kinds of the second
+    part — a map data slab flagged `anySize` (the slab of an external collision group) -/
 def isStorable : Slab → Bool
   | .storable _ _ => true
+  | .storableG _ _ => true
+  | .mdata m => m.anySize
   | _ => false
 
 theorem headOf_cons2 (b0 b1 : Nat) (tail : Bytes) : headOf (b0 :: b1 :: tail) = pure ⟨b0, b1⟩ := by
@@ -98,6 +118,36 @@ theorem flags_truthful (s : Slab) (n : Nat) :
     have hf := head_storable_facts (elemIsRef e)
     simp only at hf
     simp only [encodeSlab, encodeStorableSlab, List.cons_append, List.nil_append, isRootOfAnObject,
+      Codec.hasPointers, hasSizeLimit, headOf_cons2, DM.pure_bind, isRoot, hasRefElem, isStorable]
+    rw [hf.2.1, hf.2.2.1, hf.2.2.2]
+    exact ⟨rfl, rfl, rfl⟩
+  | adata a =>
+    have hf := head_adata_facts (decide (a.next ≠ SlabID.undef)) (!(encSts a.elems []).2.isEmpty)
+      (anyPtrSts a.elems) a.ty.isSome
+    simp only at hf
+    simp only [encodeSlab, encodeArrData, List.cons_append, List.nil_append, isRootOfAnObject,
+      Codec.hasPointers, hasSizeLimit, headOf_cons2, DM.pure_bind, isRoot, hasRefElem, isStorable]
+    rw [hf.2.2.2.1, hf.2.2.2.2.1, hf.2.2.2.2.2.1]
+    exact ⟨rfl, rfl, rfl⟩
+  | mdata m =>
+    have hf := head_mdata_facts (decide (m.next ≠ SlabID.undef)) (!(encMEls m.els []).2.isEmpty)
+      m.group m.els.hasPtr m.anySize m.extra.isSome
+    simp only at hf
+    simp only [encodeSlab, encodeMapData, List.cons_append, List.nil_append, isRootOfAnObject,
+      Codec.hasPointers, hasSizeLimit, headOf_cons2, DM.pure_bind, isRoot, hasRefElem, isStorable]
+    rw [hf.2.2.2.1, hf.2.2.2.2.1, hf.2.2.2.2.2.1]
+    exact ⟨rfl, rfl, rfl⟩
+  | mindex m =>
+    have hf := head_mmeta_facts m.extra.isSome
+    simp only at hf
+    simp only [encodeSlab, encodeMapMeta, List.cons_append, List.nil_append, isRootOfAnObject,
+      Codec.hasPointers, hasSizeLimit, headOf_cons2, DM.pure_bind, isRoot, hasRefElem, isStorable]
+    rw [hf.2.2.2.1, hf.2.2.2.2.1, hf.2.2.2.2.2]
+    exact ⟨rfl, rfl, rfl⟩
+  | storableG id x =>
+    have hf := head_storable_facts x.hasPtr
+    simp only at hf
+    simp only [encodeSlab, encodeStorableSlabG, List.cons_append, List.nil_append, isRootOfAnObject,
       Codec.hasPointers, hasSizeLimit, headOf_cons2, DM.pure_bind, isRoot, hasRefElem, isStorable]
     rw [hf.2.1, hf.2.2.1, hf.2.2.2]
     exact ⟨rfl, rfl, rfl⟩
